@@ -12,15 +12,15 @@ from common import REPO
 READY = True
 
 META = {
-    "technique": "Lean 4 proofs about executable models (integer kernels, parser call graph regenerated from source, parser nesting accounting, a verified operand-stack certificate checker run on every real instruction stream = translation validation), tied by differential runs through the public API and a verif_hooks observation of the VM's operand stack; plus a crash oracle (child processes, signals, panic hook) over builtins x boundary arguments, format strings from a grammar, grammar-aware template mutants, nesting-depth probes (incl. chains stacked through every grouping primary, derived from the nesting model), width probes around every integer constant of compiler/ and vm/, engine objects read after their scope ended, and the whole minijinja-contrib surface",
+    "technique": "Lean 4 proofs about executable models (integer kernels, parser call graph regenerated from source, parser nesting accounting, a verified operand-stack certificate checker run on every real instruction stream = translation validation), scope-stack programs of compiler/meta.rs and kinded-stack programs of codegen.rs's pending_block regenerated from the source text and checked by verified checkers, a regenerated table of ALL potential crash sites of the crate against a hand-made classification), tied by differential runs through the public API and a verif_hooks observation of the VM's operand stack; plus a crash oracle (child processes, signals, panic hook) over builtins x boundary arguments, format strings from a grammar, grammar-aware template mutants, nesting-depth probes (incl. chains stacked through every grouping primary, derived from the nesting model), width probes around every integer constant of compiler/ and vm/, engine objects read after their scope ended, systematic construct compositions (every statement kind in every container kind to depth 2 exhaustively, deeper sampled, with user statements before/after at every level, loaded through seven API paths + undeclared_variables + render), accumulate-loop probes on a 256 KiB stack, and the whole minijinja-contrib surface",
     "category": "proof",
-    "text": "PARTIAL. Proved: (i) kernels — the models of functions::range (incl. exactness of every item), Loop::cycle and the loop attributes, ops::mul string/tuple/list repetition, filters::indent/tojson indent, format width/precision and zero padding of grouped numbers, filters::batch/slice count arithmetic, the filter/test local ids of codegen get_local_id vs the VM caches of get_or_lookup_local (MAX_LOCALS from both files), lexer advance/syntax_error u16 columns + debug caret line, ops::slice never reach a Rust panic for any input in the machine ranges, every infallible allocation sized by a template-chosen number is bounded by a named constant regenerated from the sources, MergeSeq nesting stays within MAX_DEPTH; (ii) parser — on the call graph regenerated from parser.rs every chain of Parser method calls that avoids with_recursion_guard! has fewer than 16 edges (every cycle guarded, native parser depth < (MAX_RECURSION+1)*16 frames) except the elif self-recursion (recorded finding); the parser's expr_nesting accounting computes exactly the longest loop-built chain on any path, so whatever parses has AST depth <= 2*MAX_EXPR_NESTING + 3*MAX_RECURSION + 1 = 2451 (elif chains excluded); (iii) VM operand stack — checkStk_sound: if the verified checker accepts a certificate for an instruction stream then in EVERY reachable state of the abstract stack machine (all branches, iteration counts, loop(...) recursion depths, arbitrary pushed values) no instruction pops/peeks/indexes what is not there (Stack::pop/peek unwrap, get_call_args/drop_top/reverse_top lengths, dynamic argument counts incl. the filtered-loop idiom as a counted segment, args[0] of method calls, build_macro's list); the check runs the verified checker on every stream the real compiler produces for ~10^5 templates. Searched, not proved: that nothing else panics, overflows the native stack or aborts in the allocator.",
+    "text": "PARTIAL. Proved: (i) kernels — the models of functions::range (incl. exactness of every item), Loop::cycle and the loop attributes, ops::mul string/tuple/list repetition, filters::indent/tojson indent, format width/precision and zero padding of grouped numbers, filters::batch/slice count arithmetic, the filter/test local ids of codegen get_local_id vs the VM caches of get_or_lookup_local (MAX_LOCALS from both files), lexer advance/syntax_error u16 columns + debug caret line, ops::slice never reach a Rust panic for any input in the machine ranges, every infallible allocation sized by a template-chosen number is bounded by a named constant regenerated from the sources, MergeSeq nesting stays within MAX_DEPTH; (ii) parser — on the call graph regenerated from parser.rs every chain of Parser method calls that avoids with_recursion_guard! has fewer than 16 edges (every cycle guarded, native parser depth < (MAX_RECURSION+1)*16 frames) except the elif self-recursion (recorded finding); the parser's expr_nesting accounting computes exactly the longest loop-built chain on any path, so whatever parses has AST depth <= 2*MAX_EXPR_NESTING + 3*MAX_RECURSION + 1 = 2451 (elif chains excluded); (iii) VM operand stack — checkStk_sound: if the verified checker accepts a certificate for an instruction stream then in EVERY reachable state of the abstract stack machine (all branches, iteration counts, loop(...) recursion depths, arbitrary pushed values) no instruction pops/peeks/indexes what is not there (Stack::pop/peek unwrap, get_call_args/drop_top/reverse_top lengths, dynamic argument counts incl. the filtered-loop idiom as a counted segment, args[0] of method calls, build_macro's list); the check runs the verified checker on every stream the real compiler produces for ~10^5 templates. (iv) load-time assignment tracker (compiler/meta.rs, behind find_macro_closure for every macro / call block and behind undeclared_variables): on the scope-stack programs regenerated from the source every function — every arm of track_walk — pops only what it pushed and ends at its entry height on every path, hence for EVERY AST `assign` (`last_mut().unwrap()`) is never reached with an empty scope stack (meta_scopes_no_panic, meta_walk_arm_height_unchanged; Scopes.exec_sound is the general soundness theorem of the checker); (v) code generator: on the kinded-stack programs regenerated from codegen.rs every method agrees with its (inferred, then checked) signature, hence the `unreachable!()` of end_scope / end_condition / sc_bool and `assert!(pending_block.is_empty())` of finish are unreachable for every AST (codegen_pending_block_safe); (vi) Instructions::get_line / get_span index in range for every table and pc, SmallStr slices in range and its u8 length lossless; (vii) the regenerated table of ALL 497 potential crash sites of the crate's non-test code (unwrap, expect, unreachable!/panic!/assert!, indexing, slicing, integer `as` casts, syntactic arithmetic; 271 rows = file::function::kind) equals the hand-made classification row by row with the same counts (all_panic_sites_classified) — class a (proved in a kernel model, theorem named): 54 rows / 117 sites, b (guarded in the same function, guard text regenerated and compared: panic_guards_as_tabled): 27 / 36, c (outside the quantifier: poisoned mutex, allocation of fixed types, host macros, macro syntax): 20 / 27, d (crash-oracle streams only): 170 / 317; a new unwrap()/index/cast/arithmetic site, or one that moves, breaks the theorem with a pointer to the row. Searched, not proved: that the class-d sites and everything that is not a syntactic site (native stack, allocator, callee panics inside std / dependencies) never crash.",
     "design_ref": "DESIGN.md §3 C01, §4",
-    "level_note": "What is PROVED (kernel-checked, axioms propext/Classical.choice/Quot.sound only): MJ.C01.*_no_panic / *_alloc_le / range_items_exact / mergeSeq_depth_bounded about the hand-transcribed kernels in MJ/Model/Kernels.lean (+ Slice.lean via C09), validated against the real code on their whole boundary boxes through templates/Expression::eval/formatting::format (value and panic/no-panic outcome compared with drive_c01); MJ.C01.parser_cycles_guarded by `decide +kernel` on the call graph that lib/tables/c01.py regenerates from parser.rs, with MJ.CallGraph.runBound_sound / chain_length_lt; MJ.C01.nesting_exact / nesting_error_exact / ast_depth_bound about MJ/Model/Nesting.lean (hand model of the guard counter and of the expr_nesting save/reset/bump/max protocol; the protocol's presence in every loop function is checked textually by the extractor, the accept/reject verdicts of the real parser are compared with the model on derivations around the limit, unparsed to source); MJ.C01.checkStk_sound (MJ/Model/Stk.lean, MJ/Proofs/Stk.lean): soundness of the operand-stack certificate checker for the abstract machine of one eval_impl activation incl. loop recursion (relative stacks, floors of recursive loops). NOT proved: the code generator — covered by translation validation (the verified checker accepts every real stream of the run: fixtures, builtin-call templates, compiling mutants, depth-probe templates), not by a theorem about codegen.rs; the effect table mapping Instruction -> abstract instruction is a hand transcription (harness stk_tok, exhaustive match) tied dynamically by the verif_hooks::opstack hook (every dispatched instruction of every render: observed height transition vs table). What is ONLY SEARCHED (bounded, sampled; a finding is a witness, absence of findings is not a proof): native stack use of the AST walkers, of Value Display/serialize/Drop on deeply nested run-time values and of VM re-entry (AST depth is bounded by theorem, frame sizes are not modelled), allocator behaviour, the frame/capture stacks (C05), every builtin filter/test/function/loop/namespace/macro call on a boundary value zoo, format-string grammar, template mutants, error formatting; only the harness' dev profile (opt-level 1, overflow checks + debug assertions) in the quick tier, release added in thorough. Assumed: the guard macro has the extracted shape (checked textually), size_of::<Value>() = 24 (checked at run time), 64-bit target, allocation failure below the named limits does not occur (2 GiB cap in the workers), a loop object is only called where the model allows recursion (any CallFunction with one argument / FastRecurse may enter any recursive loop of the stream). Hangs (timeouts) are reported in the histogram, not counted as crashes.",
+    "level_note": "What is PROVED (kernel-checked, axioms propext/Classical.choice/Quot.sound only): MJ.C01.*_no_panic / *_alloc_le / range_items_exact / mergeSeq_depth_bounded about the hand-transcribed kernels in MJ/Model/Kernels.lean (+ Slice.lean via C09), validated against the real code on their whole boundary boxes through templates/Expression::eval/formatting::format (value and panic/no-panic outcome compared with drive_c01); MJ.C01.parser_cycles_guarded by `decide +kernel` on the call graph that lib/tables/c01.py regenerates from parser.rs, with MJ.CallGraph.runBound_sound / chain_length_lt; MJ.C01.nesting_exact / nesting_error_exact / ast_depth_bound about MJ/Model/Nesting.lean (hand model of the guard counter and of the expr_nesting save/reset/bump/max protocol; the protocol's presence in every loop function is checked textually by the extractor, the accept/reject verdicts of the real parser are compared with the model on derivations around the limit, unparsed to source); MJ.C01.checkStk_sound (MJ/Model/Stk.lean, MJ/Proofs/Stk.lean): soundness of the operand-stack certificate checker for the abstract machine of one eval_impl activation incl. loop recursion (relative stacks, floors of recursive loops). MJ.C01.meta_scope_table_balanced / meta_walk_arms_balanced / meta_scopes_no_panic / meta_walk_arm_height_unchanged (MJ/Model/Scopes.lean, MJ/Proofs/Scopes.lean: big-step semantics of scope-stack programs incl. mutual recursion, silent Vec::pop, mem::replace isolation; the programs are REGENERATED by lib/tables/c01.py + lib/c01_rustscan.py from the text of meta.rs — push/pop/assign/if/match/for/closures; the shapes of AssignmentTracker::{push,pop,assign,is_assigned} and the one-scope initial stack are checked textually; functions without scope operations are over-approximated by any number of their need/call events in any order); MJ.C01.codegen_pending_block_table_ok / codegen_pending_block_safe (MJ/Model/KStack.lean, MJ/Proofs/KStack.lean: programs over stacks of PendingBlock kinds with per-method signatures, regenerated from codegen.rs incl. early returns rewritten structurally, the sub-generator of {% block %} and a driver `compile_stmt* ; finish` as entry points; only the KIND discipline is modelled, the `unreachable!()` arms that depend on WHICH instruction a remembered index points to stay class d); MJ.C01.getLine_no_panic / getSpan_no_panic (about C13's model MJ/Model/Loc.lean, binary search contract Ok(i) ⇒ i < len, Err(i) ⇒ i ≤ len), smallStr_no_panic / smallStr_char_fits (MJ/Model/Sites.lean, capacity regenerated); MJ.C01.all_panic_sites_classified / panic_guards_as_tabled / panic_evidence_given / panic_site_class_counts by `decide +kernel` on MJ.Gen.panicSites vs MJ/Model/PanicSites.lean (the classification is a HAND judgement per row: class a means the named theorem covers the arithmetic / access of that function in its kernel model, class b that the tabled guard is adequate — the theorem only guarantees that the table is complete, that counts and guards have not changed, and that evidence is named; the scanner is syntactic: `arith` counts every binary + - * / % << >> and compound assignment incl. float and checked contexts, method-call panics such as RefCell borrows or slice::copy_from_slice are not sites). MOVED FROM VALIDATED TO PROVED in this round: the scope stack of meta.rs (1 site, was oracle only and the seeded C01-5 was missed), pending_block kind discipline (4 sites), get_line/get_span (6 sites), SmallStr (5 sites). NOT proved: the code generator's output — covered by translation validation (the verified checker accepts every real stream of the run: fixtures, builtin-call templates, compiling mutants, depth-probe templates), not by a theorem about codegen.rs; the effect table mapping Instruction -> abstract instruction is a hand transcription (harness stk_tok, exhaustive match) tied dynamically by the verif_hooks::opstack hook (every dispatched instruction of every render: observed height transition vs table). What is ONLY SEARCHED (bounded, sampled; a finding is a witness, absence of findings is not a proof): native stack use of the AST walkers, of Value Display/serialize/Drop on deeply nested run-time values and of VM re-entry (AST depth is bounded by theorem, frame sizes are not modelled), allocator behaviour, the frame/capture stacks (C05), every builtin filter/test/function/loop/namespace/macro call on a boundary value zoo, format-string grammar, template mutants, error formatting; only the harness' dev profile (opt-level 1, overflow checks + debug assertions) in the quick tier, release added in thorough. Assumed: the guard macro has the extracted shape (checked textually), size_of::<Value>() = 24 (checked at run time), 64-bit target, allocation failure below the named limits does not occur (2 GiB cap in the workers), a loop object is only called where the model allows recursion (any CallFunction with one argument / FastRecurse may enter any recursive loop of the stream). Hangs (timeouts) are reported in the histogram, not counted as crashes.",
 }
 
 NEEDED_TABLES = ["PARSER_CALL_GRAPH", "RECURSION_GUARD_SHAPE", "RANGE_LIMIT", "UNTRUSTED_SIZE_HINT_CAP", "MAX_EXPR_NESTING",
-                 "FMT_MAX_PRECISION", "FMT_MAX_WIDTH_IS_REPEAT_LIMIT", "MAX_REPEATED_STRING_LEN", "MAX_RECURSION_PARSER", "NEST_PROTOCOL", "MERGESEQ_MAX_DEPTH", "MAX_LOCALS", "VM_LOCAL_SLOTS"]
+                 "FMT_MAX_PRECISION", "FMT_MAX_WIDTH_IS_REPEAT_LIMIT", "MAX_REPEATED_STRING_LEN", "MAX_RECURSION_PARSER", "NEST_PROTOCOL", "MERGESEQ_MAX_DEPTH", "MAX_LOCALS", "VM_LOCAL_SLOTS", "META_SCOPE_PROGRAMS", "PANIC_SITES", "SMALL_STR_CAP", "CODEGEN_KSTACK"]
 
 
 TRIVIAL_ERRORS = ("TooManyArguments", "UnknownTest", "UnknownFilter", "UnknownFunction")
@@ -49,8 +49,10 @@ def classify(case, result):
         site = f"depth:{f[1]}:{cls}"
     elif kind == "f":
         site = f"format:{'printf' if f[1] == 'p' else 'strformat'}:{cls}"
+    elif kind == "c":
+        site = f"compose:{f[1]}:{cls}"
     elif kind in ("t", "e"):
-        label = f[1]
+        label = f[1].replace("namespace:cycle2", "namespace:cycle")   # same family, run on the 2 MiB thread only
         if label.startswith("mut"):
             site = f"template:{cls}"
         else:
@@ -104,7 +106,7 @@ def run_profile(r, exe, profile, model_cache):
     amplify = []
     for case, modes in by_case.items():
         f = case.split(" ")
-        stream = {"k": "kernels", "d": "depth", "t": "templates", "e": "expressions", "f": "format-grammar"}.get(f[0], "other")
+        stream = {"k": "kernels", "d": "depth", "t": "templates", "e": "expressions", "f": "format-grammar", "c": "compose"}.get(f[0], "other")
         if f[0] in ("t", "e"):
             stream = "mutants" if f[1].startswith("mut") else "builtins"
         for mode, res in sorted(modes.items()):
@@ -121,11 +123,21 @@ def run_profile(r, exe, profile, model_cache):
                 r.hist["builtin_family"][f[1].split(":")[0]] += 1
             if f[0] == "k":
                 r.hist["kernel"][f[1]] += 1
+            if f[0] == "c" and mode == "main":
+                path = f[4].split("|")[0].split(".")
+                r.hist["compose_family"][f"{f[1]} depth {len(path) - 1}"] += 1
+                r.hist["compose_api"][f[2]] += 1
+                r.hist["compose_outcome"][cls + (":" + res.split(":")[1] if cls == "err" else "")] += 1
+                if f[1] != "expr":
+                    for st in path[-1].split("+"):
+                        r.hist["compose_statement"][st] += 1
+                    for k in path[:-1]:
+                        r.hist["compose_container"][k] += 1
             if res.startswith("tie-mismatch"):
                 # the operand-stack heights the real VM went through contradict the effect table
                 r.model_disagreement(f"{profile}/{mode} {case}", res, "transition allowed by stk_tok / MJ.Stk")
                 r.hist["opstack_dynamic_tie"]["mismatch"] += 1
-            elif mode == "main" and f[0] in ("t", "e") and cls in ("ok", "err"):
+            elif mode == "main" and f[0] in ("t", "e", "c") and cls in ("ok", "err"):
                 r.hist["opstack_dynamic_tie"]["renders whose every dispatched instruction matched the table"] += 1
             bad, site, what = classify(case, res)
             if what == "timeout":
@@ -180,21 +192,30 @@ def run_profile(r, exe, profile, model_cache):
                 r.model_disagreement(f"{profile}/{mode} {case}", res, "err-chain")
 
 
-def validate_streams(r, exe):
+def fetch_streams(r, exe, box):
+    """(runs in a thread beside the crash oracle) dump the instruction streams and run the verified checker"""
+    rc, out, err = r.harness(exe, ["streams", r.tier], timeout=6000)
+    box["rc"], box["err"] = rc, err
+    if rc != 0:
+        return
+    box["lines"] = [l for l in out.splitlines() if l.startswith("S\t")]
+    box["ncomp"] = [l for l in out.splitlines() if l.startswith("N\t")]
+    if box["lines"]:
+        box["res"] = r.driver("drive_c01", "\n".join(box["lines"]) + "\n")
+
+
+def validate_streams(r, box):
     """translation validation of the operand-stack discipline: the VERIFIED checker (checkStk on the
     certificate proposed by the untrusted inferStk) on every instruction stream the real compiler
     produces for the templates of the case list that compile"""
-    rc, out, err = r.harness(exe, ["streams", r.tier], timeout=6000)
-    if rc != 0:
-        r.broken.append(f"harness c01 streams exited {rc}: {err[-300:]}")
+    if box.get("rc") != 0:
+        r.broken.append(f"harness c01 streams exited {box.get('rc')}: {(box.get('err') or '')[-300:]}")
         return
-    lines = [l for l in out.splitlines() if l.startswith("S\t")]
-    ncomp = [l for l in out.splitlines() if l.startswith("N\t")]
+    lines, ncomp, res = box.get("lines") or [], box.get("ncomp") or [], box.get("res")
     r.extra["opstack_templates_compiled"] = int(ncomp[0].split("\t")[1]) if ncomp else None
     if not lines:
         r.broken.append("harness produced no instruction streams")
         return
-    res = r.driver("drive_c01", "\n".join(lines) + "\n")
     if res is None or len(res) != len(lines):
         r.broken.append("checker driver output does not line up with the dumped streams")
         return
@@ -222,11 +243,58 @@ def validate_streams(r, exe):
     r.extra["opstack_streams_rejected"] = rejected
 
 
+def compare_panic_sites(r, gen):
+    """the regenerated table of potential crash sites against the hand-made classification
+    (lean/MJ/Model/PanicSites.lean): the theorem `all_panic_sites_classified` decides, this twin only
+    turns a mismatch into a pointer (file, function, kind, source lines)"""
+    from common import LEAN
+    path = os.path.join(LEAN, "MJ", "Model", "PanicSites.lean")
+    rows = re.findall(r'⟨"((?:[^"\\]|\\.)*)", (\d+), \.([abcd]), "((?:[^"\\]|\\.)*)"⟩', open(path, encoding="utf-8").read())
+    unq = lambda t: t.replace('\\"', '"').replace("\\\\", "\\")
+    cls = {unq(k): (int(n), c, unq(e)) for k, n, c, e in rows}
+    table = {k: (n, g) for k, n, g in gen.get("table", [])}
+    lines = gen.get("lines", {})
+    per = collections.Counter()
+    sites = collections.Counter()
+    for k, (n, c, e) in cls.items():
+        per[c] += 1
+        sites[c] += n
+    r.extra["panic_sites"] = {"rows": len(table), "sites": sum(n for n, _ in table.values()),
+                              "classified_rows": dict(per), "classified_sites": dict(sites),
+                              "classes": {"a": "proved unreachable in a kernel model (theorem named)", "b": "guarded in the same function (guard text tabled and regenerated)",
+                                          "c": "outside the property's quantifier (poisoned mutex, allocation of fixed types, host macros, macro syntax)", "d": "crash-oracle streams only"}}
+    msgs = []
+    for k, (n, g) in table.items():
+        if k not in cls:
+            msgs.append(f"new potential crash site(s): {k} x{n} at minijinja/src/{k.split('::')[0]} line(s) {lines.get(k)} — not classified")
+        elif cls[k][0] != n:
+            msgs.append(f"potential crash sites changed: {k} now x{n} (classified x{cls[k][0]}) at minijinja/src/{k.split('::')[0]} line(s) {lines.get(k)}")
+        elif cls[k][1] == "b" and cls[k][2] != g:
+            msgs.append(f"guard of a class-b crash site changed: {k}: source has `{g}`, tabled `{cls[k][2]}` (line(s) {lines.get(k)})")
+    for k in cls:
+        if k not in table:
+            msgs.append(f"classified crash site no longer in the source: {k} (remove the row or follow the move)")
+    # class-a rows name a theorem; the ones of this property must be among the audited obligations
+    audited = set(re.findall(r"^#print axioms\s+(\S+)", open(os.path.join(LEAN, "MJ", "Audit", "C01.lean")).read(), re.M))
+    for k, (n, c, e) in cls.items():
+        if c == "a":
+            thms = re.findall(r"MJ\.[A-Za-z0-9_.]+", e)
+            if not e.startswith("MJ.") or not thms:
+                msgs.append(f"class-a crash site {k} does not name its theorem")
+            for t in thms:
+                t = t.rstrip(".")
+                if t.startswith("MJ.C01.") and t not in audited:
+                    msgs.append(f"class-a crash site {k} names `{t}`, which is not an audited obligation of MJ/Audit/C01.lean")
+    for m in msgs[:8]:
+        r.broken.append(m + "; theorem all_panic_sites_classified / panic_guards_as_tabled does not hold for the regenerated table")
+    r.extra["panic_sites"]["mismatches"] = len(msgs)
+
+
 def run(r):
     r.rule = ("kernel stream: exhaustive boundary boxes (range 19x19x15, repetition, indent/tojson/format widths, batch/slice counts, "
               "lexer columns) compared with the Lean model; builtins: every name registered in defaults.rs x receiver zoo x argument "
               "lists (none, each zoo value, sampled pairs/triples/kwargs); mutants: seeds from fuzz/ and tests/inputs + grammar-aware "
-              "mutations; depth probes: 63 constructs x depths; each case on the main thread and on a 2 MiB thread in child processes "
+              "mutations; depth probes: 63 constructs x depths; compositions: 33 statement kinds x 15 container kinds nested to depth 2 exhaustively (depth 3+ sampled) x user statements before/after at every level, ordered sibling pairs in every container, 34 expression kinds nested to depth 2 (deeper sampled), loaded through 7 API paths, undeclared_variables(true/false), rendered; accumulate-loop probes (4000 rounds, thorough 10000) on a 256 KiB stack; each case on the main thread and on a 2 MiB thread in child processes (pool of 16 worker slots, heavy cases first) "
               "under a 2 GiB cap; a case is non-trivial when the real code ran to a value or to an error other than TooManyArguments/Unknown* (distinct per profile/thread)")
     r.assumptions = [
         "operand stack: the per-instruction effect table is the exhaustive match `stk_tok` of harness/src/bin/c01.rs (hand transcription of vm/mod.rs eval_impl), tied dynamically: the verif_hooks::opstack hook reports (activation, pc, stack height) for every dispatched instruction of every render of the oracle run and every transition is compared with the table; recursion into a loop may target any recursive loop of the stream; nested evaluations (macro calls, blocks, includes) run their own activation on their own stack",
@@ -240,8 +308,25 @@ def run(r):
     graph = (st.get("items") or {}).get("PARSER_CALL_GRAPH") or {}
     unguarded_self = [a for a, b, g in graph.get("edges", []) if a == b and not g]
     r.extra["parser_unguarded_self_recursion"] = unguarded_self
+    scopes = (st.get("items") or {}).get("META_SCOPE_PROGRAMS") or {}
+    r.extra["meta_scope_arms"] = scopes.get("arms")
+    for name in scopes.get("unbalanced", []):
+        r.broken.append(f"compiler/meta.rs {name}: the scope stack is not balanced on every path (push/pop counts {scopes.get('arms', {}).get(name)}); "
+                        "theorems meta_scope_table_balanced / meta_walk_arms_balanced do not hold for the regenerated table")
+    kst = (st.get("items") or {}).get("CODEGEN_KSTACK") or {}
+    r.extra["codegen_pending_block_signatures"] = {n: f"{v['pre']} -> {v['post']}" for n, v in (kst.get("signatures") or {}).items() if v["pre"] or v["post"]}
+    for name in kst.get("unchecked", []):
+        r.broken.append(f"compiler/codegen.rs CodeGenerator::{name}: pending_block is not used with matching kinds / not balanced on every path "
+                        f"(inferred signature {kst['signatures'].get(name)}); theorem codegen_pending_block_table_ok does not hold for the regenerated table")
+    compare_panic_sites(r, (st.get("items") or {}).get("PANIC_SITES") or {})
+    # the Lean build and the build of the harness do not depend on each other
+    import threading
+    built = {}
+    th = threading.Thread(target=lambda: built.update(exe=r.cargo_build("c01")))
+    th.start()
     r.lean_prove("MJ.Props.C01", "MJ/Audit/C01.lean", extra_targets=["drive_c01"])
-    exe = r.cargo_build("c01")
+    th.join()
+    exe = built.get("exe")
     if exe is None:
         return
     rc, out, err = r.harness(exe, ["info"])
@@ -249,9 +334,15 @@ def run(r):
     r.extra["build_info"] = info
     if info.get("size_of_value") != "24" or info.get("pointer_width") != "64":
         r.broken.append(f"model assumes size_of::<Value>() = 24 on a 64-bit target, the build reports {info}")
-    validate_streams(r, exe)
+    # the translation validation of the instruction streams (one process + the Lean checker) runs beside
+    # the crash oracle (worker pool)
+    box = {}
+    tv = threading.Thread(target=fetch_streams, args=(r, exe, box))
+    tv.start()
     model_cache = {}
     run_profile(r, exe, "debug", model_cache)
+    tv.join()
+    validate_streams(r, box)
     if r.tier == "thorough":
         exe_rel = r.cargo_build("c01", release=True)
         if exe_rel is not None:
